@@ -567,13 +567,15 @@ class InverseR:
     @staticmethod
     def opts(tier):
         return st.fixed_dictionaries({"kind": st.sampled_from(MATRIX_KINDS), "n": st.integers(1, 7),
-                                      "cplx": st.booleans()})
+                                      "cplx": st.booleans(), "forder": st.booleans()})
 
     @staticmethod
     def build(o, rng):
         import pymoto as pym
         kind, n = o["kind"], o["n"]
         A = make_matrix(kind, n, rng, o["cplx"], 50.0)
+        if o.get("forder"):
+            A = np.asfortranarray(A)      # column-major storage (e.g. a transposed view, loaded data)
         a = sig(A, "A")
         mod = pym.Inverse(a, sig(None, "B"))
         # Inverse has no class memory: any direction of the right dtype class is admissible
@@ -605,7 +607,7 @@ class LinSolveR:
             "sparse": st.sampled_from([None, "csc", "csr"]), "density": st.sampled_from([1.0, 0.6, 0.3]),
             "rhs": st.sampled_from(RHS_SHAPES), "rhs_cplx": st.booleans(), "dep": st.booleans(),
             "hint": st.sampled_from([None, None, "true"]), "lda": st.booleans(),
-            "solver": st.sampled_from([None, None, None, "lu", "qr", "ldl", "cg"]),
+            "solver": st.sampled_from([None, None, None, "lu", "qr", "ldl", "cg"]), "forder": st.booleans(),
         })
 
     @staticmethod
@@ -644,7 +646,10 @@ class LinSolveR:
         if o["sparse"]:
             Ast = sps.csc_matrix(A) if o["sparse"] == "csc" else sps.csr_matrix(A)
         else:
-            Ast = A
+            Ast = np.asfortranarray(A) if o.get("forder") else A
+            if o.get("forder"):
+                bvec = np.asfortranarray(bvec)
+                lab.append("fortran_order")
         a, b = sig(Ast, "A"), sig(bvec, "b")
         kw = {}
         herm = kind in HERMITIAN_KINDS or (kind == "diag" and not cplx)
@@ -805,7 +810,7 @@ class EigDenseR:
         return st.fixed_dictionaries({
             "kind": st.sampled_from(["sym", "herm", "general_real", "general_cplx", "complex_sym"]),
             "n": st.integers(2, 6), "gen": st.booleans(), "seedmask": st.sampled_from([[1, 1], [1, 0], [0, 1]]),
-            "hint": st.sampled_from([None, None, "true"]), "partial_modes": st.booleans(),
+            "hint": st.sampled_from([None, None, "true"]), "partial_modes": st.booleans(), "forder": st.booleans(),
         })
 
     @staticmethod
@@ -851,11 +856,12 @@ class EigDenseR:
                 C = C.real
             A = Lf @ C @ Lf.conj().T
             B = Lf @ Lf.conj().T
-        sa = sig(A, "A")
+        fo = np.asfortranarray if o.get("forder") else (lambda m: m)
+        sa = sig(fo(A), "A")
         ins = [sa]
         vdirs = [_eig_dir(rng, kind, n, A)]
         if o["gen"]:
-            sb = sig(B if (cplx or not np.iscomplexobj(B)) else B.real, "B")
+            sb = sig(fo(B if (cplx or not np.iscomplexobj(B)) else B.real), "B")
             ins.append(sb)
             vdirs.append(_eig_dir(rng, "herm" if np.iscomplexobj(sb.state) else "sym", n, sb.state) * 0.3)
         kw = {}
@@ -883,7 +889,7 @@ class EigDenseR:
                 out[1] = q
             return out
         lab = ["eigdense", f"eig:{kind}", "generalized" if o["gen"] else "standard",
-               "seed:" + "".join(map(str, mask))]
+               "seed:" + "".join(map(str, mask))] + (["fortran_order"] if o.get("forder") else [])
         return Built(mod, mod.sig_in, mod.sig_out, vdirs, seeds, linear=False, h=1e-3, labels=lab, tol=1e-6)
 
 
